@@ -11,6 +11,8 @@ import sys
 import time
 
 VERIF = os.path.dirname(os.path.dirname(os.path.abspath(__file__)))
+# evidence of registered runs goes to /verif/evidence; experiments on seeded changes (tools/eval_mutant.py) redirect it
+EVIDENCE_DIR = os.environ.get("BB_EVIDENCE_DIR") or os.path.join(VERIF, "evidence")
 REPO = os.environ.get("BB_REPO", "/repo")
 COQ = os.path.join(VERIF, "coq")
 GEN = os.path.join(COQ, "gen")
@@ -323,7 +325,7 @@ def load_known():
 
 def finish(res, level="proof", trusted=None, rule="", checker_cmd="", assumptions=None):
     """Write evidence, print KNOWN-FINDING / VIOLATION lines, return the exit code."""
-    os.makedirs(os.path.join(VERIF, "evidence"), exist_ok=True)
+    os.makedirs(EVIDENCE_DIR, exist_ok=True)
     os.makedirs(os.path.join(VERIF, "replays"), exist_ok=True)
     for f in os.listdir(os.path.join(VERIF, "replays")):
         if f.startswith(res.prop + "-") and f.endswith(".json"):
@@ -373,7 +375,7 @@ def finish(res, level="proof", trusted=None, rule="", checker_cmd="", assumption
         "property_id": res.prop, "tier": res.tier, "seed": res.seed, "level": level, "coverage": cov,
         "assumptions": assumptions or [], "wall_s": round(time.time() - res.t0, 2), "violations": nviol,
     }
-    json.dump(ev, open(os.path.join(VERIF, "evidence", "%s.json" % res.prop), "w"), indent=1, default=str)
+    json.dump(ev, open(os.path.join(EVIDENCE_DIR, "%s.json" % res.prop), "w"), indent=1, default=str)
     for ln in lines:
         print(ln)
     sys.stdout.flush()
